@@ -68,7 +68,7 @@ Proof. intros Hne E. simpl in E. rewrite nth_error_set_nth_neq in E; auto. Qed.
 Lemma other_tree j o : j <> i -> nth_error ts' j = Some o -> nth_error ts j = Some o.
 Proof. intros Hne E. unfold ts' in E. rewrite nth_error_set_nth_neq in E; auto. Qed.
 
-Lemma old_bounded j tj : nth_error ts j = Some (Some tj) -> forall x, In x (addrs tj) -> (x < nx m)%N.
+Lemma old_bounded j tj : nth_error ts j = Some (Some tj) -> forall x, In x (addrs tj) -> (x < nx (s_mem st))%N.
 Proof.
   intros Tj x Hx. destruct (nth_error (s_hs st) j) as [hdj|] eqn:Hj.
   - destruct (htree_some H _ _ _ (it _ _ _ _ I j hdj _ Hj Tj)) as (_ & Hr & _).
@@ -132,7 +132,7 @@ Proof.
           destruct (fr_gen _ _ _ _ _ _ _ F x c Hc) as (c' & Hc' & Eg).
           apply (rep_own_gen _ _ (h_gen hd) _ R1 (own_addrs _ _ _ Hx)) in Hx. destruct Hx as (c'' & Hc'' & Eg'').
           exists c. split; auto. congruence. }
-        apply (i2 _ _ _ _ I i b hd t tb); auto.
+        apply (i2 _ _ _ _ I i b hd t tb Hab Hfr Hi Ti Tb x Hown Hxb).
       * pose proof (old_bounded b tb Tb x Hxb). lia.
     + apply other_handle in Ha; auto. apply other_tree in Ta; auto.
       destruct (Nat.eq_dec b i) as [->|Hbi].
@@ -140,8 +140,8 @@ Proof.
         destruct (Hnew tb Eo) as (_ & _ & _ & _ & P8 & _ & _).
         pose proof (old_bounded a ta Ta x (own_addrs _ _ _ Hx)) as Hxa.
         destruct (P8 x Hxb) as [(t & Et & Hxt)|Hfresh]; [|lia].
-        subst ot. apply (i2 _ _ _ _ I a i hda ta t); auto.
-      * apply other_tree in Tb; auto. apply (i2 _ _ _ _ I a b hda ta tb); auto.
+        subst ot. apply (i2 _ _ _ _ I a i hda ta t Hai Hafr Ha Ta Ti x Hx Hxt).
+      * apply other_tree in Tb; auto. apply (i2 _ _ _ _ I a b hda ta tb Hab Hafr Ha Ta Tb x Hx Hxb).
   - (* roots are not inner nodes *)
     intros a b ta tb Ta Tb Hin.
     destruct (Nat.eq_dec a i) as [->|Hai]; destruct (Nat.eq_dec b i) as [->|Hbi].
@@ -149,7 +149,7 @@ Proof.
     + rewrite Tnew_i in Ta. inversion Ta as [Eo]. clear Ta. apply other_tree in Tb; auto.
       destruct (Hnew ta Eo) as (_ & _ & _ & _ & _ & P9 & _).
       destruct (N.eq_dec (aroot tb) (aroot ta)) as [|Hne]; auto. exfalso.
-      assert (Hb : (aroot tb < nx m)%N) by (apply (old_bounded b tb Tb); apply aroot_in_addrs).
+      assert (Hb : (aroot tb < nx (s_mem st))%N) by (apply (old_bounded b tb Tb); apply aroot_in_addrs).
       destruct (P9 _ Hin Hne Hb) as (t & Et & [(Hxt & Hnr)|Hown]); subst ot.
       * apply Hnr. apply (ij _ _ _ _ I i b t tb Ti Tb Hxt).
       * destruct (nth_error (s_hs st) b) as [hdb|] eqn:Hb'.
